@@ -54,7 +54,10 @@ class AkArgumentParser(argparse.ArgumentParser):
 
     def register_dependent(self, name, parser):
         """Register dependent parser"""
-        assert name not in self._dependent_parsers
+        if name in self._dependent_parsers:
+            # reached through several parents (diamond): already registered
+            assert self._dependent_parsers[name] is parser
+            return
         self._dependent_parsers[name] = parser
 
     def add_argument(self, *args, **kwargs):
